@@ -127,6 +127,7 @@ def make_ob(tname, opc, op, k, tier):
     use_src = has_interp(opc) and opc.version_tuple >= (3, 6)
     vt = tuple(opc.version_tuple[:2])
     cmp_bound = compare_valid_bound(opc) if op in opc.COMPARE_OPS else None
+    real_names = oracles.opcode_dump(vt)["opcode"]["opname"] if has_interp(opc) else None
     ext_op = getattr(opc, "EXTENDED_ARG", None)
     # pre-3.6 call-like opcodes render their two operand bytes with "%d" inside the decoder; CrossHair
     # realises %d operands (one path per value), so those two bytes get a reduced range (stated bound)
@@ -168,6 +169,9 @@ def make_ob(tname, opc, op, k, tier):
             assert inst.offset == pos, "tiling: offset %r after end %r" % (inst.offset, pos)
             assert inst.opcode == rop, "opcode at %d" % off
             assert inst.opname == opc.opname[rop], "opname at %d" % off
+            if real_names is not None and rop < len(real_names) and not real_names[rop].startswith("<"):
+                assert inst.opname == real_names[rop].replace("+", "_") or inst.opname == real_names[rop], \
+                    "vs-real opname at %d: xdis %r, CPython %d.%d names opcode %d %r" % (off, inst.opname, vt[0], vt[1], rop, real_names[rop])
             if rarg is None:
                 assert inst.arg is None, "arg-none at %d: got %r" % (off, inst.arg)
             else:
